@@ -90,7 +90,9 @@ LAYERS = {
             ('C17', {'R17.1', 'R17.2', 'R17.3'}, 'R09.10', 'an oversized frame must end in BufferOverflow for that connection only, not in unbounded growth of the server process')],
     'C10': [('C01', 'R01.', 'R10.6', 'calls pipelined behind a streaming call are in the receive buffer: they are served in order only if framing is exact'),
             ('C02', 'R02.', 'R10.7', 'every stream item is one framed reply that is flushed when sent: an item left in the write buffer is not delivered while the stream is open'),
-            ('C18', {'R18.2'}, 'R10.8', 'two streams ready in the same poll: the select must hand out one item and keep the other future pending, not drop its output')],
+            ('C18', {'R18.2'}, 'R10.8', 'two streams ready in the same poll: the select must hand out one item and keep the other future pending, not drop its output'),
+            ('C08', {'R08.6'}, 'R10.10', 'the calls a client pipelined in front of a streaming call are answered before the connection is parked with its stream: a reply that the '
+             'handler only enqueued stays in the write buffer for as long as the stream is silent')],
     'C12': [('C02', 'R02.', 'R12.12', 'every generated method hands its call to enqueue / send_call: one document, one NUL, also for the second call of a chain'),
             ('C04', 'R04.', 'R12.10', 'generated methods map replies "exactly as the low-level receive classifies them"'),
             ('C06', {'R06.1', 'R06.2', 'R06.3', 'R06.4', 'R06.5'}, 'R12.11', 'chain forms and streaming methods are built on Chain / ReplyStream: one item per owed reply up to the final one')],
